@@ -187,6 +187,21 @@ fn check_seq(l: &mut Local<'_>, mode: u8, map: &Beatmap, attrs: &DifficultyAttri
         return false;
     }
 
+    // the same Difficulty means the same thing to the one-shot and to the gradual entry points (without passed_objects: what
+    // a limited gradual calculator covers is not specified)
+    if !seq.iter().any(|s| matches!(s, S::Passed(_))) {
+        let one = d.calculate(map);
+        let gd = rosu_pp::GradualDifficulty::new(d.clone(), map).last();
+        let mut gp = rosu_pp::GradualPerformance::new(d.clone(), map);
+        let n = gp.len();
+        let last_p = (n > 0).then(|| gp.nth(rosu_pp::any::ScoreState::new(), n - 1)).flatten();
+        l.checked(2);
+        if gd.as_ref().is_some_and(|g| !same(g, &one)) || last_p.as_ref().is_some_and(|p| !same(&p.difficulty_attributes(), &one)) {
+            l.violation("gradual_vs_one_shot_settings", || ctxs(format!("the Difficulty gives {one:?} one-shot,\n {gd:?} as the last gradual difficulty value and\n {:?} inside the last gradual performance value", last_p.map(|p| p.difficulty_attributes()))));
+            return false;
+        }
+    }
+
     // Performance setters == handing over the Difficulty: on a map source and an attributes source
     for src in 0..2 {
         let mk = || if src == 0 { Performance::new(map) } else { Performance::new(attrs.clone()) };
